@@ -26,6 +26,21 @@ claimed = {
    note="Trusted: the ~100-line reference evaluator for if/range (conditions come from a fixed truthiness table limited to the kinds the statement lists); multi-entry map iterations are compared as multisets. Sampling only: no claim over all programs.",
    tech="deterministic simulation: seeded program generation, simulated ranger pool, virtual-time channel producers (testing/synctest), fault injection under try, reference-model oracle, tape shrinking + replay",
    ref="DESIGN.md §6 C05"),
+ "C15": dict(engine="loadersim", cat="exploration",
+   text="Seam invariant monitored on every Loader.Exists/Open and Cache.Get/Put call over seeded histories that take every lookup path (GetTemplate, Parse, extends, import, include with literal and data-computed names, exec, includeIfExists; cache hit and miss; development mode; 4 extension lists) with tape-spelled names (relative/absolute, ./ ../ // segments anywhere, more .. than the depth, trailing slash, spellings aimed at a canary file outside the root) from referrers at depth 0-3: each path must be canonical and in the allowed set {expected(referrer, name, kind)+ext}, Template.Name must be canonical, an existing canonical target must be found and rendered, and on a real directory-rooted OSFileSystemLoader the canary outside the root must never be rendered.",
+   note="Honest note: the decisive dimension is the spelling of names (input generation); the simulator contributes the recording seams, the histories and the real directory-rooted loader. Backslashes are not generated.",
+   tech="deterministic simulation: seeded reference histories, recording Loader/Cache seams with an invariant checked on every call, real scratch-directory loader with canary, tape shrinking + replay",
+   ref="DESIGN.md §6 C15"),
+ "C16": dict(engine="loadersim", cat="exploration",
+   text="Seeded histories (4-30 operations) of GetTemplate, GetTemplate+Execute with run-time includes, Parse with extends/import, loader Set/Delete with unique version markers, new Set over the same loader (restart analogue) and loader fault sequences (transient miss, Exists-true-then-Open-error, read error after k bytes, close error, unparsable content; faults stop at a tape-chosen point) on 1-2 Sets, under every combination of development mode, default vs recording cache and 5 extension lists. Each operation is judged against a clause-level reference model: identical pointer and zero loader calls on repeat lookups; never an answer without the loader unless something legitimately cacheable was loaded under that name (failures and Parse results are never remembered); progress within one call once faults stopped; development mode always reloads, renders current versions and never Puts; candidate extensions probed strictly in order and exactly the found path opened.",
+   note="Trusted: the clause model is silent where the statement is silent (shared entries between spellings, Close discipline); version markers make every rendered byte attributable.",
+   tech="deterministic simulation: seeded operation/fault histories over Loader and Cache seams, executable clause model as oracle, tape shrinking + replay",
+   ref="DESIGN.md §6 C16"),
+ "C19": dict(engine="loadersim", cat="exploration",
+   text="Seeded edit/query histories against a reference tree (path -> bytes | directory): InMemLoader under arbitrary spellings of Set/Delete/Exists/Open; OSFileSystemLoader over a real per-run scratch directory mutated with WriteFile/MkdirAll/RemoveAll; httpfs over a simulated http.FileSystem with injected Open/Stat/Read errors; embedfs over a static embedded tree with an exhaustive sweep of its path alphabet to depth 4; multi stacks of 1-3 loaders with overlapping contents (directory in an earlier loader, file in a later one) and AddLoaders mid-history. Exists(p) must hold iff the reference has a regular file at p, Exists implies Open reads exactly the reference bytes (multi: of the first loader in construction order that has it); after an injected fault only that call may fail, wrong bytes are never accepted.",
+   note="Trusted: the reference tree; file-system loaders are queried only with clean absolute paths; the OS loader runs on the real disk (no fault injection); embed.FS is static.",
+   tech="deterministic simulation: seeded edit/query histories, simulated http.FileSystem with fault injection, reference-tree oracle, exhaustive embedfs sweep, tape shrinking + replay",
+   ref="DESIGN.md §6 C19"),
 }
 
 not_applicable = {
@@ -41,7 +56,7 @@ not_applicable = {
  "C18": "single-threaded, fault-free API-vs-syntax equivalence: stateful input generation, not simulation (DESIGN.md §7)",
  "C20": "pure function of the AST (DESIGN.md §7)",
 }
-pending = {k: 'claimed in DESIGN.md §2; its check is still under construction, so nothing is asserted yet' for k in ['C02','C11','C15','C16','C19']}  # id -> reason, for claimed-in-design properties whose check is not built yet
+pending = {k: 'claimed in DESIGN.md §2; its check is still under construction, so nothing is asserted yet' for k in ['C02','C11']}  # id -> reason, for claimed-in-design properties whose check is not built yet
 
 m = {
  "version": 1,
